@@ -124,6 +124,18 @@ check("C03", "exploration",
       "runtime monitoring: trace-event monitor (TracePrinter hook) checked against a call-by-need reference bound",
       "DESIGN.md §3 C03")
 
+check("C02", "exploration",
+      "Enumerates every 1- and 2-layer inheritance chain over names {a,b} and 13 member kinds per name "
+      "(exhaustive), sampled / reduced-exhaustive 3-layer and random deeper chains, composed by `+` and "
+      "`base {..}` with std.objectRemoveKey and object asserts at varying positions, and compares 8 "
+      "probes per chain (visible/all field lists, objectHas/objectHasAll/in for present and absent names, "
+      "each field read, manifestation, equality with a rebuilt copy, several reads in one program) "
+      "observed on the real evaluator with the reference object model.",
+      "The reference object model (layers, lookup from a start index, visibility merge, +: folding, "
+      "assert-on-first-index) is the trusted base; error text is not compared.",
+      "runtime monitoring: differential oracle (reference object model) over exhaustive small inheritance chains",
+      "DESIGN.md §3 C02")
+
 NOT_APPLICABLE = []
 
 
